@@ -87,6 +87,12 @@ func ValidateAttestation(ctx context.Context, subnet uint64, att *phase0.Attesta
 	} else if !inSubtree {
 		return nil, GossipValidatorResult{REJECT, errors.New("block not in subtree of target")}
 	}
+	// An ancestor is not enough: the target has to be the checkpoint block of the target epoch on the chain of the vote.
+	if checkpointRoot, err := CheckpointBlock(ctx, spec, blockRef, att.Data.Target.Epoch); err != nil {
+		return nil, GossipValidatorResult{IGNORE, fmt.Errorf("cannot determine checkpoint block of epoch %d for block %s: %w", att.Data.Target.Epoch, att.Data.BeaconBlockRoot, err)}
+	} else if checkpointRoot != att.Data.Target.Root {
+		return nil, GossipValidatorResult{REJECT, fmt.Errorf("target %s is not the checkpoint block %s of epoch %d for block %s", att.Data.Target.Root, checkpointRoot, att.Data.Target.Epoch, att.Data.BeaconBlockRoot)}
+	}
 
 	// [IGNORE] The current finalized_checkpoint is an ancestor of the block defined
 	// by attestation.data.beacon_block_root --
